@@ -88,8 +88,13 @@ func (c *HeartbeatManager) StartHeartbeat() error {
 		return err
 	}
 
+	// stopping and restarting has to be one step, otherwise concurrent calls
+	// could lose a stop channel and leave a second heartbeat running
+	c.stopMux.Lock()
+	defer c.stopMux.Unlock()
+
 	// stop an already running heartbeat
-	c.StopHeartbeat()
+	c.stopHeartbeat()
 
 	c.stopHeartbeatC = make(chan struct{})
 
@@ -101,7 +106,15 @@ func (c *HeartbeatManager) StartHeartbeat() error {
 // Stop updating heartbeat data
 // Note: No active subscribers will get any further notifications!
 func (c *HeartbeatManager) StopHeartbeat() {
-	if c.IsHeartbeatRunning() {
+	c.stopMux.Lock()
+	defer c.stopMux.Unlock()
+
+	c.stopHeartbeat()
+}
+
+// close the stop channel if the heartbeat is running, stopMux has to be held
+func (c *HeartbeatManager) stopHeartbeat() {
+	if c.stopHeartbeatC != nil && !c.isHeartbeatClosed() {
 		close(c.stopHeartbeatC)
 	}
 }
